@@ -127,6 +127,47 @@ def run(F, R, tier):
                 and H.render(H.strip(x["e"])) in ("self", "other")}
         return flds == {field}, "%s for %s reads fields %s" % (trait, tn, sorted(flds))
 
+    def container_hash_feeds(ty):
+        """what `Hash for <ty>` feeds the hasher: only the elements the equality compares (each through its own Hash) and,
+        at most, how many there are.  Anything else — the kind of an element (`mem::discriminant`), an address, a field the
+        equality ignores — can differ between two equal containers (1 == 1.0 element-wise)."""
+        tn = ty.split("<")[-1].rstrip(">")
+        g = F.fn("<%s as std::hash::Hash>::hash" % tn)
+        if g is None:
+            return False, "no local impl of Hash for %s" % tn
+        b = H.unlet(H.body_of(g))
+        ps = [p_.get("id") for p_ in g["hir"]["params"] if p_.get("k") == "bind"]
+        if len(ps) != 2:
+            return False, "unexpected signature"
+        st_id = ps[1]
+        # loop variables bound from an iteration over self.<field>
+        elem_ids = set()
+        for m in H.walk(b):
+            if m.get("k") == "match" and m.get("src", "").startswith("ForLoop") and "into_iter" in H.render(m["scrut"])[:40] and "self." in H.render(m["scrut"]):
+                for x in H.walk(m):
+                    if x.get("k") == "match" and x is not m:
+                        for a_ in x["arms"]:
+                            q = a_["pat"]
+                            if q.get("k") in ("ts", "struct") and H.last(q["res"].get("path") or "") == "Some":
+                                elem_ids |= {y["id"] for y in H.walk(q) if y.get("k") == "bind"}
+        bad = []
+        n = 0
+        for c in H.walk(b):
+            if c.get("k") not in ("mcall", "call"):
+                continue
+            argv_ = ([c["recv"]] if c.get("k") == "mcall" else []) + c.get("args", [])
+            if not any(H.local_id(H.strip(a_)) == st_id for a_ in argv_):
+                continue
+            fed = [a_ for a_ in argv_ if H.local_id(H.strip(a_)) != st_id]
+            n += 1
+            for x in fed:
+                xs = H.strip(x)
+                is_elem = H.local_id(xs) in elem_ids or (xs.get("k") == "field" and H.local_id(H.strip(xs["e"])) in elem_ids)
+                is_len = xs.get("k") == "mcall" and xs["m"] == "len" and "self." in H.render(xs["recv"])
+                if not (is_elem or is_len):
+                    bad.append(H.render(c)[:70])
+        return bool(n) and not bad, ("feeds %d values: the elements%s" % (n, "" if not bad else "; and also: %s" % bad))
+
     n_pairs = 0
     for va in vs:
         for vb in vs:
@@ -182,7 +223,8 @@ def run(F, R, tier):
             elif hka[0] == "prim" and hka[1] == ety and ety.startswith("std::rc::Rc<"):
                 o1, d1 = local_impl_fieldwise(ety, "PartialEq", "elements")
                 o2, d2 = local_impl_fieldwise(ety, "Hash", "elements")
-                R.ob("eq-implies-hash", key, o1 and o2, "element-wise on both sides: %s; %s" % (d1, d2), loc)
+                o3, d3 = container_hash_feeds(ety)
+                R.ob("eq-implies-hash", key, o1 and o2 and o3, "element-wise on both sides: %s; %s; hash %s" % (d1, d2, d3), loc)
             elif hka[0] == "field" and ety.startswith("std::rc::Rc<"):
                 o1, d1 = local_impl_fieldwise(ety, "PartialEq", hka[1])
                 R.ob("eq-implies-hash", key, o1, "hash of field `%s`; %s" % (hka[1], d1), loc)
